@@ -112,10 +112,10 @@ mod c02 {
 
     /// canary: claim that allocate returns id 0 on any state with a free id (false) must be refuted
     #[kani::proof]
-    #[kani::unwind(514)]
+    #[kani::unwind(10)]
     #[kani::should_panic]
     fn c02_canary_allocate_zero() {
-        let mut words = [!0u64; WORDS];
+        let mut words = [!0u64; 8];
         words[3] = kani::any();
         kani::assume(words[3] != !0u64);
         let mut set = StreamIdSet { used_bitmap: Box::new(words) };
